@@ -143,6 +143,23 @@ class EvolveAppTask(BaseEvolutionTask):
             graph=graph,
             hinted=hinted)
 
+        # Migrations that are still to be applied are work to be done for
+        # their apps, even if those apps have no new evolutions or models.
+        # Otherwise a run with nothing but pending migrations would be
+        # reported as not requiring an upgrade, and never apply them.
+        tasks_by_app_label = dict(
+            (task.app_label, task)
+            for task in tasks
+        )
+
+        for batch in batches:
+            if batch['type'] == UpgradeMethod.MIGRATIONS:
+                for migration_target in batch.get('migration_targets', []):
+                    task = tasks_by_app_label.get(migration_target[0])
+
+                    if task is not None:
+                        task.evolution_required = True
+
         # Set some state that execute_tasks() and unit tests can get to.
         evolver._evolve_app_task_state = {
             # These are used for the execution stage.
